@@ -46,6 +46,7 @@ def main():
     ap.add_argument("--out", default=os.path.join(HERE, "SENSITIVITY.md"))
     ap.add_argument("--merge", action="store_true", help="with --only: replace the rows of those properties in sensitivity_results.json and rewrite the table")
     ap.add_argument("--rounds", default="", help="only seeded changes of these rounds (suffix letters, '-' for the first round), e.g. g,h,i,j; own mutants are skipped; implies no table rewrite unless --merge")
+    ap.add_argument("--paths", default="", help="only these changes (comma separated substrings of the patch path, e.g. seeded/C04d/,seeded/C10c/); use with --merge")
     ap.add_argument("--harvest", action="store_true", help="copy one counter-example per caught seeded change into replays/<ID>/seeded_<name>.json")
     a = ap.parse_args()
     global HARVEST
@@ -72,6 +73,9 @@ def main():
             except Exception:
                 pass
             items.append((pid, "seeded", f, a.tier))
+    if a.paths:
+        want = [x for x in a.paths.split(",") if x]
+        items = [it for it in items if any(w in it[2] for w in want)]
     rows = []
     with concurrent.futures.ThreadPoolExecutor(a.jobs) as ex:
         for r in ex.map(run, items):
@@ -81,12 +85,12 @@ def main():
     missed = [r for r in rows if r[3] != 1]
     # results are kept as JSON next to the table, so that a later run restricted to some properties (--only ... --merge) can replace just their rows
     store = os.path.join(HERE, "sensitivity_results.json")
-    partial = bool(only) or bool(a.rounds)
+    partial = bool(only) or bool(a.rounds) or bool(a.paths)
     if a.merge and partial and os.path.exists(store):
         old_rows = [tuple(r) for r in json.load(open(store))["rows"]]
         new_paths = set(os.path.relpath(r[2], HERE) for r in rows)
         keep = [(pid, kind, os.path.join(HERE, path), rc, keys) for pid, kind, path, rc, keys in old_rows
-                if path not in new_paths and not (only and not a.rounds and pid in only)]
+                if path not in new_paths and not (only and not a.rounds and not a.paths and pid in only)]
         rows = sorted(keep + rows, key=lambda r: (r[0], r[1], r[2]))
         only = set()
         partial = False
